@@ -101,6 +101,8 @@ type interpreter struct {
 	stubs     map[string]bool
 	bounds    map[string]bool
 	chanSeq   int
+	pcSet     map[int]bool
+	keptUnknown int
 	watch     map[*value]string
 	watchHits []string
 
@@ -127,6 +129,8 @@ type Config struct {
 	Deadline       time.Time
 	Verbose        bool
 	ConcLimit      int
+	SampleCap      int
+	FeasMs         int // wall-clock cap of a feasibility (pruning) query; unknown = keep
 }
 
 type Explorer struct {
@@ -151,6 +155,9 @@ type Explorer struct {
 	stop      bool
 	seenViol  map[string]bool
 	intrCache sync.Map
+	feasLimit time.Duration
+	KeptUnknown int
+	sizes     types.Sizes
 }
 
 // PathSample keeps a completed path's inputs/observations for translator validation.
@@ -188,8 +195,13 @@ func NewExplorer(prog *ssa.Program, cfg Config) *Explorer {
 	if cfg.ConcLimit == 0 {
 		cfg.ConcLimit = 24
 	}
+	if cfg.FeasMs == 0 {
+		cfg.FeasMs = 4000
+	}
 	e := &Explorer{cfg: cfg, prog: prog, Outcomes: map[string]int{}, Reached: map[string]int{}, Funcs: map[string]int{}, Stubs: map[string]bool{}, Bounds: map[string]bool{}, seenViol: map[string]bool{}}
 	e.cond = sync.NewCond(&e.mu)
+	e.sizes = types.SizesFor("gc", "amd64")
+	e.feasLimit = time.Duration(cfg.FeasMs) * time.Millisecond
 	return e
 }
 
@@ -204,6 +216,13 @@ func (e *Explorer) Run() {
 		}(w)
 	}
 	wg.Wait()
+}
+
+func (e *Explorer) sampleCap() int {
+	if e.cfg.SampleCap > 0 {
+		return e.cfg.SampleCap
+	}
+	return 60
 }
 
 func (e *Explorer) take() ([]Decision, bool) {
@@ -267,6 +286,7 @@ func (e *Explorer) worker(w int) {
 		e.Paths++
 		e.Outcomes[res.Outcome]++
 		e.Decisions += len(i.trace)
+		e.KeptUnknown += i.keptUnknown
 		for k, v := range res.Reached {
 			e.Reached[k] += v
 		}
@@ -293,8 +313,13 @@ func (e *Explorer) worker(w int) {
 			}
 		}
 		if res.Outcome == "completed" || res.Outcome == "panic" {
-			if ps := i.sample(res.Outcome); ps != nil && len(e.Samples) < 400 {
-				e.Samples = append(e.Samples, *ps)
+			if len(e.Samples) < e.sampleCap() {
+				e.mu.Unlock()
+				ps := i.sample(res.Outcome)
+				e.mu.Lock()
+				if ps != nil {
+					e.Samples = append(e.Samples, *ps)
+				}
 			}
 		}
 		if e.Paths >= e.cfg.MaxPaths {
@@ -424,6 +449,10 @@ func (i *interpreter) assumeInternal(t *smt.Term) {
 		return
 	}
 	i.pc = append(i.pc, t)
+	if i.pcSet == nil {
+		i.pcSet = map[int]bool{}
+	}
+	i.pcSet[t.ID] = true
 	i.solver.Assert(t)
 }
 
@@ -458,19 +487,23 @@ func (i *interpreter) branch(cond *smt.Term, fr *frame) bool {
 		return false
 	}
 	neg := i.ctx.Not(cond)
-	rt := i.solver.Check(cond)
-	if rt == smt.Unknown {
-		panic(i.solverFail("branch feasibility"))
+	// a condition already on the path condition (or its negation) is decided syntactically
+	if i.pcSet[cond.ID] {
+		i.trace = append(i.trace, Decision{Val: 1, Forced: true})
+		return true
 	}
+	if i.pcSet[neg.ID] {
+		i.trace = append(i.trace, Decision{Val: 0, Forced: true})
+		return false
+	}
+	// feasibility pruning: unknown (or slow) = keep the branch (over-approximation)
+	rt := i.feasible(cond)
 	if rt == smt.Unsat {
 		i.trace = append(i.trace, Decision{Val: 0, Forced: true})
 		i.assumeInternal(neg)
 		return false
 	}
-	rf := i.solver.Check(neg)
-	if rf == smt.Unknown {
-		panic(i.solverFail("branch feasibility"))
-	}
+	rf := i.feasible(neg)
 	if rf == smt.Unsat {
 		i.trace = append(i.trace, Decision{Val: 1, Forced: true})
 		i.assumeInternal(cond)
@@ -483,6 +516,23 @@ func (i *interpreter) branch(cond *smt.Term, fr *frame) bool {
 	i.trace = append(i.trace, Decision{Val: 1})
 	i.assumeInternal(cond)
 	return true
+}
+
+// feasible is a pruning query: Unsat prunes, Sat/Unknown keep. A query that runs
+// past the feasibility limit kills the solver process, which is then restarted
+// and re-fed the path condition.
+func (i *interpreter) feasible(t *smt.Term) smt.Result {
+	r, killed := i.solver.CheckTimeout(i.ex.feasLimit, t)
+	if killed {
+		i.solver.Reset()
+		for _, p := range i.pc {
+			i.solver.Assert(p)
+		}
+	}
+	if r == smt.Unknown {
+		i.keptUnknown++
+	}
+	return r
 }
 
 // concretize forks over every feasible value of t (bounded by ConcLimit).
@@ -586,11 +636,8 @@ func (i *interpreter) userAssume(t *smt.Term) {
 		panic(&pathAbort{kind: abInfeasible, msg: "assume(false)"})
 	}
 	if !i.replaying() {
-		switch i.solver.Check(t) {
-		case smt.Unsat:
+		if i.feasible(t) == smt.Unsat {
 			panic(&pathAbort{kind: abInfeasible, msg: "assumption infeasible"})
-		case smt.Unknown:
-			panic(i.solverFail("assume feasibility"))
 		}
 	}
 	i.assumeInternal(t)
@@ -706,7 +753,7 @@ func (i *interpreter) userAssert(cond value, id string) {
 	if t.IsFalse() {
 		panic(&pathAbort{kind: abDone, msg: "assert(false)"})
 	}
-	if i.solver.Check(t) != smt.Sat {
+	if i.feasible(t) == smt.Unsat {
 		panic(&pathAbort{kind: abDone, msg: "assertion cannot hold on this path"})
 	}
 	i.assumeInternal(t)
@@ -766,7 +813,11 @@ func (i *interpreter) addViolation(kind, id, site string, m map[string]uint64, k
 // values of its Observe terms under that witness.
 func (i *interpreter) sample(outcome string) *PathSample {
 	vars := i.inputVars()
-	r, m := i.modelFor(vars)
+	all := append([]*smt.Term{}, i.soft...)
+	r, m, killed := i.solver.CheckModelTimeout(i.ex.feasLimit, vars, all...)
+	if r != smt.Sat && !killed && len(i.soft) > 0 {
+		r, m, killed = i.solver.CheckModelTimeout(i.ex.feasLimit, vars)
+	}
 	if r != smt.Sat {
 		return nil
 	}
